@@ -591,3 +591,33 @@ Proof.
   destruct (copy_props_carries _ _ _ _ _ _ H) as (K1 & K2). split; auto.
   intros k Hk. apply K1. rewrite M2. auto.
 Qed.
+
+(* ---- every evaluation of a container literal allocates ------------------------------------------ *)
+(* The value of a list / map literal is the address of a cell that is appended to the heap AFTER
+   the items were evaluated: it did not exist in the state the items were evaluated to (so no
+   variable, container or closure of that state — in particular no result of an earlier
+   evaluation of the same literal, at any nesting level — is that container), and the cell
+   holds exactly the values of this evaluation of the items. *)
+Lemma eval_list_literal_allocates n F es st st' v :
+  eval (S n) F (EList es) st = (st', ROk v) ->
+  exists st1 vs, eval_list n F es st = (st1, ROk vs) /\
+    nth_error (st_heap st1) (length (st_heap st1)) = None /\
+    v = VRef (length (st_heap st1)) /\ st_heap st' = st_heap st1 ++ [LList vs] /\
+    st_frames st' = st_frames st1.
+Proof.
+  cbn [eval]. intros H. apply bind_ok in H as (st1 & vs & H1 & H).
+  exists st1, vs. unfold m_heap_alloc in H. injection H as <- <-.
+  repeat split; auto. apply nth_error_None. lia.
+Qed.
+
+Lemma eval_map_literal_allocates n F kvs st st' v :
+  eval (S n) F (EMap kvs) st = (st', ROk v) ->
+  exists st1 m, eval_entries n F kvs st = (st1, ROk m) /\
+    nth_error (st_heap st1) (length (st_heap st1)) = None /\
+    v = VRef (length (st_heap st1)) /\ st_heap st' = st_heap st1 ++ [LMap m] /\
+    st_frames st' = st_frames st1.
+Proof.
+  cbn [eval]. intros H. apply bind_ok in H as (st1 & m & H1 & H).
+  exists st1, m. unfold m_heap_alloc in H. injection H as <- <-.
+  repeat split; auto. apply nth_error_None. lia.
+Qed.
